@@ -31,6 +31,7 @@ type inputs struct {
 	statesCI string // tip states that differ only by case (A / a / B / b): ties for any case-insensitive ordering
 	big      string // one tree of 100-140 tips (many per-branch records: worker pools need them to show an order)
 	dupmap   string // a rename map whose lines share their second column (non-injective when read with --revert)
+	similar  string // several trees SHARING most of their bipartitions (4 x rooted, tree, one of multi): a consensus with many inner branches, comparisons with common branches
 }
 
 func toNewick(n *core.N) string {
@@ -131,6 +132,7 @@ func genInputs(c *core.Ctx, rep int) *inputs {
 		mb.WriteString(toNewick(m) + "\n")
 	}
 	in.multi = mb.String()
+	in.similar = in.rooted + "\n" + in.rooted + "\n" + in.tree + "\n" + in.rooted + "\n" + strings.SplitAfter(in.multi, "\n")[0] + in.rooted + "\n"
 	// every node named
 	on := o
 	on.Rooted = 1
@@ -344,6 +346,29 @@ func cliTemplates(c *core.Ctx, in *inputs) []*request {
 	add("support-tbe-t1", false, cmp, "compute", "support", "tbe", "-i", "@in:tree@", "-b", "@in:multi@", "-t", "1", "--silent", "-o", "@out:tree@")
 	add("compare-trees-t1", true, cmp, "compare", "trees", "-i", "@in:tree@", "-c", "@in:multi@", "-t", "1")
 	add("consensus", false, M, "compute", "consensus", "-i", "@in:tree@", "-f", "0.5")
+	// trees that share their bipartitions: the consensus has many inner branches (their order of insertion comes
+	// from the traversal of the edge hash table), the comparisons find common branches
+	S := map[string]string{"tree": in.similar}
+	cmpS := map[string]string{"tree": in.rooted, "multi": in.similar}
+	add("consensus-similar", false, S, "compute", "consensus", "-i", "@in:tree@", "-f", "0.5")
+	add("consensus-similar-strict", false, S, "compute", "consensus", "-i", "@in:tree@", "-f", "0.6")
+	add("compare-trees-similar", true, cmpS, "compare", "trees", "-i", "@in:tree@", "-c", "@in:multi@", "-t", "4")
+	add("support-fbp-similar", false, cmpS, "compute", "support", "fbp", "-i", "@in:tree@", "-b", "@in:multi@", "-t", "3", "--silent", "-o", "@out:tree@")
+	add("support-tbe-similar", false, cmpS, "compute", "support", "tbe", "-i", "@in:tree@", "-b", "@in:multi@", "-t", "3", "--silent", "-o", "@out:tree@")
+	// thread sweeps (see threadSweep): the same command line with -t 1, 2, 3, 5, 7, 8, 64, 200 — counts that do not
+	// divide the number of branches / trees, and counts beyond it; reference and compared trees share their branches, so
+	// that a branch or a tree left out by a partition of the work shows in the supports / counts
+	cmpR := map[string]string{"tree": in.tree, "multi": in.similar}
+	add("sweep-support-tbe", false, cmpS, "compute", "support", "tbe", "-i", "@in:tree@", "-b", "@in:multi@", "-t", "@threads@", "--silent", "-o", "@out:tree@")
+	add("sweep-support-tbe-unrooted", false, cmpR, "compute", "support", "tbe", "-i", "@in:tree@", "-b", "@in:multi@", "-t", "@threads@", "--silent", "-o", "@out:tree@")
+	add("sweep-support-booster-raw", false, cmpS, "compute", "support", "booster", "-i", "@in:tree@", "-b", "@in:multi@", "-t", "@threads@", "--silent", "-o", "@out:tree@", "-r", "@out:raw@")
+	add("sweep-support-fbp", false, cmpS, "compute", "support", "fbp", "-i", "@in:tree@", "-b", "@in:multi@", "-t", "@threads@", "--silent", "-o", "@out:tree@")
+	add("sweep-support-classical", false, cmpR, "compute", "support", "classical", "-i", "@in:tree@", "-b", "@in:multi@", "-t", "@threads@", "--silent", "-o", "@out:tree@")
+	add("sweep-compare-trees", true, cmpS, "compare", "trees", "-i", "@in:tree@", "-c", "@in:multi@", "-t", "@threads@")
+	add("sweep-compare-trees-weighted", true, cmpS, "compare", "trees", "-i", "@in:tree@", "-c", "@in:multi@", "--weighted", "-t", "@threads@")
+	add("sweep-compare-trees-rf", false, cmpS, "compare", "trees", "-i", "@in:tree@", "-c", "@in:multi@", "--rf", "-t", "@threads@")
+	add("sweep-roccurve", false, map[string]string{"tree": in.similar, "true": in.rooted}, "compute", "roccurve", "-i", "@in:tree@", "-r", "@in:true@", "-t", "@threads@", "-s", "0.25")
+	add("sweep-edgetrees", false, R, "compute", "edgetrees", "-i", "@in:tree@", "-t", "@threads@")
 	add("bipartitiontree", false, map[string]string{"tree": in.tree, "tips": strings.Join(in.tips[:4], "\n") + "\n"}, "compute", "bipartitiontree", "-i", "@in:tree@", "-f", "@in:tips@")
 	add("edgetrees", false, T, "compute", "edgetrees", "-i", "@in:tree@")
 	// the per-branch records of edgetrees carry no identifier on the standard output: whatever the number of
@@ -441,5 +466,18 @@ func cliTemplates(c *core.Ctx, in *inputs) []*request {
 	add("gen-caterpillar", false, nil, "generate", "caterpillartree", "-l", "9", "-n", "2")
 	add("gen-star", false, nil, "generate", "startree", "-l", "9")
 	add("gen-topologies", false, nil, "generate", "topologies", "-l", "5")
+	// boundary seeds, whatever in.seed is: every value other than -1 is "a seed was given" — 0, a small negative
+	// one, the largest int64 (a test such as `seed <= 0` or `seed < 0` for "no seed" would read the clock)
+	base := len(out)
+	for _, b := range [][2]string{{"seed0", "0"}, {"seedneg", "-2"}, {"seedmax", "9223372036854775807"}} {
+		for _, r := range out[:base] {
+			if r.tpl == "gen-yule" || r.tpl == "shuffletips" || r.tpl == "sample" {
+				r2 := *r
+				r2.tpl = r.tpl + "-" + b[0]
+				r2.args = append(append([]string{}, r.args[:len(r.args)-1]...), b[1])
+				out = append(out, &r2)
+			}
+		}
+	}
 	return out
 }
